@@ -111,6 +111,9 @@ def read_wal(path):
 
 
 def death_violation(rc, err, out):
+    if rc == 4 and "HANG run=" in err:
+        return {"oracle": "process.hang", "op_index": -1, "op_kind": "unknown",
+                "detail": "the run did not finish: " + [l for l in err.splitlines() if "HANG run=" in l][-1].strip()}
     tail = (err.strip().splitlines() or out.strip().splitlines() or [""])[-6:]
     txt = " | ".join(t.strip() for t in tail)[-500:]
     if "DATA RACE" in err or "DATA RACE" in out:
@@ -127,7 +130,7 @@ def death_violation(rc, err, out):
             "detail": "worker process terminated (status %s) inside the run: %s" % (rc, txt)}
 
 
-def run_chunk(binary, engine, seed, tier, lo, hi, scratch, idx, maxprocs="1", hashlog=None, extra_env=None):
+def run_chunk(binary, engine, seed, tier, lo, hi, scratch, idx, maxprocs="1", hashlog=None, extra_env=None, hang_inconclusive=False):
     """Run runs [lo,hi); survive worker deaths. Returns (summaries, violations)."""
     sums, viols = [], []
     cur = lo
@@ -143,6 +146,7 @@ def run_chunk(binary, engine, seed, tier, lo, hi, scratch, idx, maxprocs="1", ha
         got_summary = False
         for ln in lines:
             if ln.get("t") == "violation":
+                ln["proc_from"] = cur
                 viols.append(ln)
             elif ln.get("t") == "summary":
                 sums.append(ln)
@@ -160,9 +164,16 @@ def run_chunk(binary, engine, seed, tier, lo, hi, scratch, idx, maxprocs="1", ha
         if tr is None:
             raise Harness("cannot regenerate trace of run %d: %s" % (died, gerr[-1000:]))
         v = death_violation(rc, err, out)
-        viols.append({"t": "violation", "run": died, "violation": v, "trace": tr, "loghash": "", "death": True})
+        probes = {"runs_lost_to_worker_death": max(0, died - cur)}
+        if v["oracle"] == "process.hang" and hang_inconclusive:
+            # under the cooperative scheduler a run can also hang because the code blocks on a primitive the
+            # scheduler does not model (sync.Once, channels, ...): inconclusive, counted, never reported
+            probes["inconclusive_hang_under_scheduler"] = 1
+            log("[inconclusive] engine=%s run=%d hung under the cooperative scheduler (not reported)" % (engine, died))
+        else:
+            viols.append({"t": "violation", "run": died, "violation": v, "trace": tr, "loghash": "", "death": True})
         sums.append({"t": "summary", "from": cur, "to": died + 1, "runs": 1, "nontrivial": 0, "violations": 1, "steps": 0,
-                     "faults": {}, "probes": {"runs_lost_to_worker_death": max(0, died - cur)}, "samples": [], "files": [],
+                     "faults": {}, "probes": probes, "samples": [], "files": [],
                      "sim_from": 0, "sim_to": 0})
         cur = died + 1
     return sums, viols
@@ -176,13 +187,13 @@ def vclass(v):
     return v["oracle"] + "/" + v.get("op_kind", "")
 
 
-def replay_once(binary, trace, scratch, tag, showlog=False, maxprocs="1", extra_env=None):
+def replay_once(binary, trace, scratch, tag, showlog=False, maxprocs="1", extra_env=None, repeat=1):
     """Execute a trace in a fresh process. Returns (violation-or-None, loghash, event_log)."""
     path = os.path.join(scratch, "replay-%s.json" % tag)
     with open(path, "w") as f:
         json.dump(trace, f)
     wal = path + ".wal"
-    rc, lines, err, out = run_worker(binary, {"mode": "replay", "engine": trace["engine"], "trace": path, "showlog": showlog, "wal": wal},
+    rc, lines, err, out = run_worker(binary, {"mode": "replay", "engine": trace["engine"], "trace": path, "showlog": showlog, "wal": wal, "repeat": repeat},
                                      timeout=600, maxprocs=maxprocs, extra_env=extra_env)
     if rc == 2 or "HARNESS-ERROR" in err:
         raise Harness("harness error during replay:\n" + err[-3000:])
@@ -222,7 +233,7 @@ def minimise(binary, trace, want, scratch, tag, budget=400, maxprocs="1", extra_
     """Shrink ops, faults and schedule while the same violation class persists."""
     calls = [0]
     best = copy.deepcopy(trace)
-    orig = {k: len(trace.get(k) or []) for k in ("ops", "faults", "schedule")}
+    orig = {k: len(trace.get(k) or []) for k in ("warmup", "ops", "faults", "schedule") if k != "warmup" or trace.get("warmup")}
 
     def holds(t):
         if calls[0] >= budget:
@@ -234,7 +245,7 @@ def minimise(binary, trace, want, scratch, tag, budget=400, maxprocs="1", extra_
     progress = True
     while progress and calls[0] < budget:
         progress = False
-        for key in ("faults", "ops", "schedule"):
+        for key in ("warmup", "faults", "ops", "schedule"):
             cur = best.get(key) or []
             if not cur:
                 continue
@@ -333,7 +344,7 @@ def check_property(pid, tier, seed, jobs, scratch):
         te = time.time()
         sums, viols = [], []
         with concurrent.futures.ThreadPoolExecutor(max_workers=jobs) as ex:
-            futs = [ex.submit(run_chunk, binary, ename, seed, tier, lo, hi, scratch, ei * 100000 + i, eng.get("gomaxprocs", "1"), None, eng.get("env"))
+            futs = [ex.submit(run_chunk, binary, ename, seed, tier, lo, hi, scratch, ei * 100000 + i, eng.get("gomaxprocs", "1"), None, eng.get("env"), bool(eng.get("scheduler")))
                     for i, (lo, hi) in enumerate(ranges)]
             for f in futs:
                 s, v = f.result()
@@ -392,10 +403,34 @@ def check_property(pid, tier, seed, jobs, scratch):
         if vclass(v0) != want:
             if eng.get("nondeterministic"):
                 for _ in range(int(eng.get("replay_attempts", 20))):
-                    v0, h0, _ = replay_once(binary, tr, scratch, "g%d-raw" % gi, maxprocs=mp, extra_env=xe)
+                    v0, h0, _ = replay_once(binary, tr, scratch, "g%d-raw" % gi, maxprocs=mp, extra_env=xe, repeat=50)
                     if vclass(v0) == want:
                         break
+            if vclass(v0) != want and not eng.get("nondeterministic") and rep.get("proc_from") is not None and rep["run"] > rep["proc_from"]:
+                # does the run depend on what earlier runs left behind in the process (library-global state)?
+                tw = copy.deepcopy(tr)
+                tw["warmup"] = list(range(rep["proc_from"], rep["run"]))
+                vw, hw, _ = replay_once(binary, tw, scratch, "g%d-warm" % gi, maxprocs=mp, extra_env=xe)
+                if vclass(vw) == want:
+                    tr = tw
+                    v0 = vw
+                    rep["trace"] = tw
             if vclass(v0) != want:
+                if want.startswith("process.data_race"):
+                    # a race-detector report is sound even if the race does not recur: report it with the original text
+                    mt = copy.deepcopy(tr)
+                    mt["violation"] = rep["violation"]
+                    mt["note"] = ("race detector report of the original execution; the race did not recur in %d re-executions "
+                                  "(free-running goroutines: the interleaving is not the simulator's to choose)" % (50 * int(eng.get("replay_attempts", 20))))
+                    path = os.path.join(VERIF, "replays", "%s-%d-%s-%d-g%d.json" % (pid, seed, tr["engine"], rep["run"], gi))
+                    with open(path, "w") as f:
+                        json.dump(mt, f, indent=1)
+                    kf = match_known(pid, mt, rep["violation"], known)
+                    if kf:
+                        known_hits.append((kf, path, len(members)))
+                    else:
+                        reported.append((path, rep["violation"], len(members)))
+                    continue
                 unreproduced.append((rep, v0))
                 continue
         if gi < 12 and not eng.get("nondeterministic"):
@@ -415,6 +450,9 @@ def check_property(pid, tier, seed, jobs, scratch):
         mt["violation"] = v1
         mt["event_log_sha256"] = h1
         mt["note"] = "minimised with %d replays; %d run(s) of this batch share this violation signature (first: run %d)" % (ncalls, len(members), rep["run"])
+        if mt.get("warmup"):
+            mt["note"] += ("; the violation does NOT occur when the trace runs alone in a fresh process: it needs the listed warm-up runs of the same batch "
+                           "executed first in the same process, i.e. the code under test keeps process-global state")
         if elog:
             mt["event_log"] = elog[-60:]
         kf = match_known(pid, mt, v1, known)
@@ -483,7 +521,8 @@ def do_replay(pid, path, scratch):
     attempts = int(eng.get("replay_attempts", 20)) if eng.get("nondeterministic") else 1
     v = None
     for _ in range(attempts):
-        v, h, elog = replay_once(binary, trace, scratch, "cli", showlog=True, maxprocs=eng.get("gomaxprocs", "1"), extra_env=trace.get("env"))
+        v, h, elog = replay_once(binary, trace, scratch, "cli", showlog=True, maxprocs=eng.get("gomaxprocs", "1"), extra_env=trace.get("env"),
+                                 repeat=50 if eng.get("nondeterministic") else 1)
         if v is not None:
             break
     for ln in elog or []:
